@@ -264,7 +264,7 @@ pub fn case_fn(p: &Prog, idx: usize) -> String {
 }
 
 pub fn file_header() -> &'static str {
-    "#![allow(unused_imports, unused_variables, unused_mut, unused_parens, unused_braces, dead_code)]\n#![recursion_limit = \"1024\"]\nuse jvrt::cb::Wv;\nuse jvrt::runner::{Case, CaseFn};\nuse jvrt::sem::{Out, Val};\nuse jvrt::fx::future::LocalBoxFuture;\n\n"
+    "#![allow(unused_imports, unused_variables, unused_mut, unused_parens, unused_braces, dead_code)]\n#![recursion_limit = \"1024\"]\nuse jvrt::cb::Wv;\nuse jvrt::runner::{Case, CaseFn};\nuse jvrt::sem::{Out, Val};\nuse jvrt::fx::future::LocalBoxFuture;\nuse jvrt::fx as jvfx;\n\n"
 }
 
 pub fn escape_str(s: &str) -> String {
